@@ -984,9 +984,10 @@ func (r stack) isNesting() (is bool) {
 		// evaluation of slice types.
 		switch tv := r[i].(type) {
 
-		// native Stack instance
+		// native Stack instance (a zero-valued one is no
+		// more a nested stack than a zero-valued alias is)
 		case Stack:
-			is = true
+			is = !tv.IsZero()
 
 		// type alias stack instnaces, since
 		// we have no knowledge of them here,
